@@ -8,6 +8,9 @@ package ratelimiter
 //                         Atomic = "coarse") on bare filter instances: the harness holds the
 //                         name -> instance map itself; a request is `h := cur[p]` then `h.Handle(ctx)`;
 //                         an update is `new.Inherit(old); old.Close()` then `cur[p] = new`.
+//                         Requests of class "x" (POST) fall under a URL rule that every generation
+//                         limits to one permit per hour: whether the call is limited is compared
+//                         with the model (the limiter is the state cell the generations share).
 
 import (
 	"fmt"
@@ -22,14 +25,16 @@ import (
 	"github.com/megaease/easegress/pkg/logger"
 	"github.com/megaease/easegress/pkg/protocols/httpprot"
 	"github.com/megaease/easegress/pkg/tracing"
+	librl "github.com/megaease/easegress/pkg/util/ratelimiter"
 	vx "github.com/megaease/easegress/pkg/verifx"
 	"gopkg.in/yaml.v2"
 )
 
 func init() { logger.InitNop() }
 
-// version ver of the filter spec: the URL rule and its policy never change (only an unused policy
-// does), so that Inherit takes the limiter over.
+// version ver of the filter spec: the URL rules and their policies never change (only an unused
+// policy does), so that Inherit takes the limiters over.  POST requests (class "x") are limited to one
+// permit per hour - nothing is refreshed while a schedule is replayed; everything else is never limited.
 func c11RlNew(pipe string, ver int) *RateLimiter {
 	y := fmt.Sprintf(`
 name: rl
@@ -39,10 +44,18 @@ policies:
   timeoutDuration: 100ms
   limitRefreshPeriod: 10ms
   limitForPeriod: 1000000
+- name: tight
+  timeoutDuration: 1ms
+  limitRefreshPeriod: 1h
+  limitForPeriod: 1
 - name: unused
   limitForPeriod: %d
 defaultPolicyRef: pol
 urls:
+- methods: [POST]
+  url:
+    prefix: /
+  policyRef: tight
 - url:
     prefix: /
   policyRef: pol
@@ -75,13 +88,17 @@ func c11RlSite(stack string) string {
 
 // c11RlHandle runs one request through the filter instance; returns "" or the panic.
 func c11RlHandle(f *RateLimiter) (result string, panicV string, site string) {
+	return c11RlHandleM(f, http.MethodGet)
+}
+
+func c11RlHandleM(f *RateLimiter, method string) (result string, panicV string, site string) {
 	defer func() {
 		if e := recover(); e != nil {
 			panicV = fmt.Sprint(e)
 			site = c11RlSite(string(debug.Stack()))
 		}
 	}()
-	stdr := httptest.NewRequest(http.MethodGet, "http://c11.test/x", http.NoBody)
+	stdr := httptest.NewRequest(method, "http://c11.test/x", http.NoBody)
 	req, _ := httpprot.NewRequest(stdr)
 	req.FetchPayload(0)
 	ctx := context.New(tracing.NoopSpan)
@@ -95,18 +112,29 @@ func TestVerifC11RlProbe(t *testing.T) {
 	defer out.Close()
 	old := c11RlNew("p", 1)
 	old.Init()
-	cell0 := old.spec.URLs[0].rl
+	cells0 := []*librl.RateLimiter{}
+	for _, u := range old.spec.URLs {
+		cells0 = append(cells0, u.rl)
+	}
 	nw := c11RlNew("p", 2)
 	nw.Inherit(old)
-	inherit := "unknown"
-	switch {
-	case cell0 == nil:
-	case old.spec.URLs[0].rl == nil && nw.spec.URLs[0].rl == cell0:
-		inherit = "move"
-	case old.spec.URLs[0].rl == cell0 && nw.spec.URLs[0].rl == cell0:
-		inherit = "share"
-	case old.spec.URLs[0].rl == cell0 && nw.spec.URLs[0].rl != nil:
-		inherit = "fresh"
+	inherit := ""
+	for i := range old.spec.URLs { // both URL rules must be treated alike
+		cell0 := cells0[i]
+		m := "unknown"
+		switch {
+		case cell0 == nil:
+		case old.spec.URLs[i].rl == nil && nw.spec.URLs[i].rl == cell0:
+			m = "move"
+		case old.spec.URLs[i].rl == cell0 && nw.spec.URLs[i].rl == cell0:
+			m = "share"
+		case old.spec.URLs[i].rl == cell0 && nw.spec.URLs[i].rl != nil:
+			m = "fresh"
+		}
+		if inherit != "" && inherit != m {
+			m = "unknown"
+		}
+		inherit = m
 	}
 	x := c11RlNew("p", 1)
 	x.Init()
@@ -122,7 +150,18 @@ func TestVerifC11RlReplay(t *testing.T) {
 	behs := vx.ReadBehaviours(t, "VERIF_IN")
 	out := vx.NewWriter(t, "VERIF_OUT")
 	defer out.Close()
-	steps, mism := 0, 0
+	steps, mism, unjudged := 0, 0, 0
+	// baseline: on a first generation the second POST is limited, a GET never is - otherwise the harness cannot judge
+	base := c11RlNew("base", 1)
+	base.Init()
+	r1, _, _ := c11RlHandleM(base, http.MethodPost)
+	r2, _, _ := c11RlHandleM(base, http.MethodPost)
+	r3, _, _ := c11RlHandleM(base, http.MethodGet)
+	if r1 != "" || r2 != resultRateLimited || r3 != "" {
+		out.Raw(vx.M{"k": "mismatch", "b": -1, "step": 0, "a": "baseline", "at": vx.M{}, "behaviour": []vx.M{},
+			"what": fmt.Sprintf("harness: baseline: POST, POST, GET on a fresh filter (POST limited to 1 per hour) answered %q, %q, %q", r1, r2, r3)})
+		behs = nil
+	}
 	for bi, beh := range behs {
 		cur := map[string]*RateLimiter{}
 		for _, p := range []string{"pa", "pb"} {
@@ -131,6 +170,7 @@ func TestVerifC11RlReplay(t *testing.T) {
 		}
 		held := map[string]*RateLimiter{}
 		tgs := map[string]string{}
+		cls := map[string]string{}
 		failed := map[string]bool{}
 		var next, removed *RateLimiter
 		pend := 0
@@ -141,6 +181,7 @@ func TestVerifC11RlReplay(t *testing.T) {
 			switch vx.Str(st["a"]) {
 			case "start":
 				tgs[r] = vx.Str(st["tg"])
+				cls[r] = vx.Str(st["cl"])
 				failed[r] = false
 			case "get":
 				h, ok := cur[tgs[r]]
@@ -149,20 +190,41 @@ func TestVerifC11RlReplay(t *testing.T) {
 				}
 				held[r] = h
 			case "run":
-				_, pv, site := c11RlHandle(held[r])
+				method := http.MethodGet
+				if cls[r] == "x" {
+					method = http.MethodPost
+				}
+				res, pv, site := c11RlHandleM(held[r], method)
 				failed[r] = pv != ""
 				if pv != "" {
 					out.Raw(vx.M{"k": "fail", "b": bi, "step": si, "r": r, "site": site, "panic": pv, "at": st, "behaviour": beh[:si+1]})
 				}
 				if vx.Bool(st["ok"]) && pv != "" {
 					bad = fmt.Sprintf("panic: Handle on the held generation (version %d): panic in %s: %s", vx.Int(st["ver"]), site, pv)
+				} else if pv == "" && cls[r] == "x" {
+					// the limit every generation configures for this URL: is the call limited as the model says?
+					limited, want := res == resultRateLimited, vx.Str(st["res"]) == "limited"
+					switch {
+					case limited == want:
+					case vx.Bool(st["closed"]):
+						// the request holds a generation that has been closed: what its limiter does by now is not
+						// stated by C11; the real limiter and the model's may be out of step from here on
+						bad = "unjudged"
+					case want:
+						bad = fmt.Sprintf("configured: a request beyond the limit of its URL rule (1 permit per hour) passed generation %d of the filter, "+
+							"which is not closed; model says it is limited", vx.Int(st["ver"]))
+					default:
+						bad = fmt.Sprintf("harness: generation %d limited a request for which the model still has a permit", vx.Int(st["ver"]))
+					}
+				} else if pv == "" && res != "" {
+					bad = fmt.Sprintf("status: an ordinary request was answered %q by generation %d", res, vx.Int(st["ver"]))
 				}
 			case "done":
 				if vx.Str(st["st"]) != "fail" && failed[r] {
 					bad = fmt.Sprintf("status: request failed, model says %s", vx.Str(st["st"]))
 				}
 			case "pipBegin", "createInit":
-				pend = vx.Int(st["ver"])
+				pend = vx.Int(st["fv"]) // the filter's own spec: version fv of the pipeline's filters section
 				if vx.Str(st["a"]) == "createInit" {
 					next = c11RlNew(p, pend)
 					next.Init()
@@ -182,6 +244,10 @@ func TestVerifC11RlReplay(t *testing.T) {
 			default:
 				bad = "harness: unknown step " + vx.Str(st["a"])
 			}
+			if bad == "unjudged" {
+				unjudged++
+				break
+			}
 			if bad != "" {
 				mism++
 				out.Raw(vx.M{"k": "mismatch", "b": bi, "step": si, "a": vx.Str(st["a"]), "at": st, "what": bad, "behaviour": beh[:si+1]})
@@ -189,5 +255,5 @@ func TestVerifC11RlReplay(t *testing.T) {
 			}
 		}
 	}
-	out.Raw(vx.M{"k": "summary", "behaviours": len(behs), "steps": steps, "mismatches": mism})
+	out.Raw(vx.M{"k": "summary", "behaviours": len(behs), "steps": steps, "mismatches": mism, "unjudged": unjudged})
 }
